@@ -68,6 +68,8 @@ AMP_FINDINGS = {"dxf_flat": "C20-dxf-insert-expansion-quadratic", "3mf_chain_dee
 FOREIGN = ["vtk", "vtu", "msh", "mesh", "nas", "inp", "xaml", "3dxml", "ctm", "zae", "wkt", "tec", "ugrid", "su2", "xdmf", "bdf", "avs"]
 
 
+# of those, the loaders that are trimesh's own code (lxml only parses the XML): judged like every other loader, all faults
+FOREIGN_OWN = {"3dxml", "xaml"}
 FOREIGN_FAULTS = ["none", "truncate", "truncate_boundary", "flip_bit", "multi_flip", "set_byte", "add_byte", "delete_range", "zero_fill", "empty", "whitespace", "random_bytes", "token_soup",
                   "append_garbage", "splice_same", "splice_other", "stream_eio", "stream_eof", "stream_closed", "token_copy"]
 
@@ -522,7 +524,7 @@ class C20(World):
     def swarm(self, rng):
         kind, fmt = rng.choice(fw.ALL_PAIRS)
         if rng.random() < 0.06:
-            kind, fmt = "foreign", rng.choice(FOREIGN)
+            kind, fmt = "foreign", rng.choice(FOREIGN + ["3dxml", "xaml"])
         routes = {"foreign": ["load", "load_mesh", "load_scene"], "mesh": ["load", "load_mesh", "load_scene"], "scene": ["load", "load_scene", "load_mesh"], "points": ["load", "load_scene"], "path2d": ["load", "load_path", "load_scene"], "path3d": ["load", "load_scene"], "voxel": ["load"]}[kind]
         return {
             "kind": kind, "fmt": fmt, "routes": routes,
@@ -568,7 +570,7 @@ class C20(World):
             ops = [{"op": "payload", "geom": {"kind": "foreign"}, "other": {"kind": "foreign"}, "rs": rng.randrange(2**31), "corpus": rng.randrange(2**16)}]
             for _ in range(cfg["n_attempts"]):
                 kind = pick(rng, cfg["weights"])
-                if kind not in FOREIGN_FAULTS:
+                if kind not in FOREIGN_FAULTS and cfg["fmt"] not in FOREIGN_OWN:
                     # faults that blow up counts or sizes only measure somebody else's parser (71 s and 8.6 GB requested by a .msh reader)
                     kind = rng.choice(FOREIGN_FAULTS)
                 ops.append({"op": "attempt", "fault": self._gen_fault(rng, kind, cfg["fmt"]), "route": rng.choice(cfg["routes"]), "transport": rng.choice(["bytesio", "simfile", "path"]), "rs": rng.randrange(2**31)})
@@ -738,7 +740,7 @@ class C20(World):
 
         fid = AMP_FINDINGS.get(f.get("sub")) if kind == "amplifier" else None
         relaxed = fid is not None and ctx.is_known(fid)
-        foreign = cfg["kind"] == "foreign"
+        foreign = cfg["kind"] == "foreign" and cfg["fmt"] not in FOREIGN_OWN
         res = mon.run(call, budget_steps(total) * (100 if relaxed else (5 if foreign else 1)))
         ctx.steps_sim += res["steps"]
         fired = bool(changed) or (stream_fault is not None)
